@@ -576,6 +576,50 @@ fn assertions_only(cl: &mut Cl, party: usize, tag: u8, asserts: usize) -> String
     }
 }
 
+/// C19: registrations from two or three OS threads whose authenticators share one store through the
+/// shipped lock wrapper: every successful registration's credential is present afterwards (so no
+/// two of them may carry the same id).
+fn run_shared_store_case(threads: usize, cap: usize, outcomes: &Arc<StdMutex<std::collections::BTreeSet<String>>>) -> (usize, bool, Option<String>) {
+    explore(
+        cap,
+        move || {
+            let store: Arc<tokio::sync::Mutex<passkey_authenticator::MemoryStore>> = Arc::new(tokio::sync::Mutex::new(Default::default()));
+            let hs: Vec<_> = (0..threads)
+                .map(|t| {
+                    let store = store.clone();
+                    shuttle::thread::spawn(move || {
+                        let mut cl = Client::new(Authenticator::new(Aaguid::new_empty(), store, Uv));
+                        let url = Url::parse(PARTIES[1].0).unwrap();
+                        catch_unwind(AssertUnwindSafe(|| shuttle::future::block_on(cl.register(&url, creation(None, t as u8 + 1), DefaultClientData)).map(|c| c.raw_id.to_vec()).map_err(|e| format!("{e:?}")))).unwrap_or_else(|p| Err(format!("PANIC: {}", panic_text(&p))))
+                    })
+                })
+                .collect();
+            let mut ids = vec![];
+            for (t, h) in hs.into_iter().enumerate() {
+                match h.join() {
+                    Ok(Ok(id)) => ids.push(id),
+                    Ok(Err(e)) => return Err(format!("thread {t}: registration failed: {e}")),
+                    Err(_) => return Err(format!("thread {t} panicked outside the guarded call")),
+                }
+            }
+            let held: Vec<Vec<u8>> = shuttle::future::block_on(async { store.lock().await.keys().cloned().collect() });
+            for (t, id) in ids.iter().enumerate() {
+                if !held.contains(id) {
+                    return Err(format!("the credential thread {t} registered successfully is not in the shared store afterwards"));
+                }
+            }
+            let mut sorted = ids.clone();
+            sorted.sort();
+            sorted.dedup();
+            if sorted.len() != ids.len() || held.len() != ids.len() {
+                return Err(format!("{} successful registrations from {} threads left {} credentials in the shared store ({} distinct ids were returned)", ids.len(), threads, held.len(), sorted.len()));
+            }
+            Ok(vec![format!("{} credentials", held.len())])
+        },
+        outcomes,
+    )
+}
+
 fn main() {
     let args: Vec<String> = std::env::args().collect();
     let prop: &'static str = match args.get(1).map(|s| s.as_str()) {
@@ -583,8 +627,9 @@ fn main() {
         Some("C10") => "C10",
         Some("C02") => "C02",
         Some("C03") => "C03",
+        Some("C19") => "C19",
         _ => {
-            eprintln!("usage: vthr C01|C02|C03|C10 quick|thorough [case-name]");
+            eprintln!("usage: vthr C01|C02|C03|C10|C19 quick|thorough [case-name]");
             std::process::exit(2);
         }
     };
@@ -599,6 +644,24 @@ fn main() {
     let mut st = Stats::default();
     let max_violations = 6;
     match prop {
+        "C19" => {
+            for threads in [2usize, 3] {
+                let name = format!("shared-store/register/{threads}");
+                if let Some(o) = &only {
+                    if &name != o {
+                        continue;
+                    }
+                }
+                let (ex, capped, fail) = run_shared_store_case(threads, cap, &outcomes);
+                st.cases += 1;
+                st.executions += ex;
+                st.capped_cases += capped as usize;
+                st.max_executions_in_a_case = st.max_executions_in_a_case.max(ex);
+                if let Some(d) = fail {
+                    st.violations.push(serde_json::json!({"case": name, "detail": d, "threads": format!("{threads} registering threads")}));
+                }
+            }
+        }
         "C01" | "C10" => {
             let cases = shared_object_cases(prop, thorough);
             let mut exp: BTreeMap<u8, Arc<BTreeMap<Op, String>>> = BTreeMap::new();
